@@ -45,6 +45,19 @@ void set_errno(int v) { errno = v; }
 int get_errno(void) { return errno; }
 int add_errno(int k) { errno = (int)((unsigned)errno + (unsigned)k); return errno; }
 int run_cb(int (*cb)(int), int pre, int arg) { int r; errno = pre; r = cb(arg); (void)r; return errno; }
+/* the same from a thread created here (its first entry into Python is this callback); the caller's own
+   errno is left at 'pre' */
+#include <pthread.h>
+struct c22_targ { int (*cb)(int); int pre, arg, out; };
+static void *c22_thr(void *p) { struct c22_targ *a = (struct c22_targ *)p; errno = a->pre; a->cb(a->arg); a->out = errno; return 0; }
+int run_cb_thread(int (*cb)(int), int pre, int arg) {
+    struct c22_targ a; pthread_t th;
+    a.cb = cb; a.pre = pre; a.arg = arg; a.out = -12345;
+    if (pthread_create(&th, 0, c22_thr, &a) != 0) c22_thr(&a);    /* (no thread available: same thread) */
+    else pthread_join(th, 0);
+    errno = pre;
+    return a.out;
+}
 /* a "global variable" that is really a macro calling a function: the code that computes
    its address reads errno and leaves another value in it */
 static int c22_store = 77;
@@ -57,6 +70,7 @@ CDEF = '''
 extern int c22_g;
 void set_errno(int v); int get_errno(void); int add_errno(int k);
 int run_cb(int (*cb)(int), int pre, int arg);
+int run_cb_thread(int (*cb)(int), int pre, int arg);
 '''
 
 INT_MIN, INT_MAX = -2**31, 2**31 - 1
@@ -95,7 +109,7 @@ def setup(ctx):
     st_ = {'api': mod, 'fi': fi, 'li': li, 'ffo': ffo, 'lo': lo,
            'ffis': [fi, mod.ffi, ffo]}
     st_['funcs'] = {}
-    for fn in ('set_errno', 'get_errno', 'add_errno', 'run_cb'):
+    for fn in ('set_errno', 'get_errno', 'add_errno', 'run_cb', 'run_cb_thread'):
         st_['funcs'][fn] = [getattr(mod.lib, fn), mod.ffi.addressof(mod.lib, fn), getattr(li, fn), getattr(lo, fn)]
     return st_
 
@@ -132,7 +146,7 @@ def strategy(ctx):
             return [t, 'gfetch', draw(val), draw(st.integers(0, 2))]
         # callback: [path, cbkind, pre, assign-or-None]
         return [t, 'cb', draw(st.integers(0, 3)), draw(st.integers(0, 3)), draw(val),
-                draw(st.one_of(st.none(), val))]
+                draw(st.one_of(st.none(), val)), draw(st.integers(0, 2)) == 0]     # last: from a C-created thread
 
     @st.composite
     def case(draw):
@@ -195,7 +209,7 @@ class Worker(threading.Thread):
                 v = affi.addressof(lib, 'c22_mv')[0]
             return [lib.c22_seen, v]
         if k == 'cb':
-            _, _, path, cbkind, pre, assign = op
+            _, _, path, cbkind, pre, assign = op[:6]
             seen = []
             api = s['api']
             ffi_for_cb = [s['fi'], api.ffi, api.ffi, api.ffi][cbkind]
@@ -221,7 +235,8 @@ class Worker(threading.Thread):
                 addr = int(ffi_for_cb.cast('uintptr_t', cbobj))
             owner = [s['api'].ffi, s['api'].ffi, s['fi'], s['ffo']][path]
             cbptr = owner.cast('int(*)(int)', addr)
-            r = s['funcs']['run_cb'][path](cbptr, pre, 5)
+            inthread = len(op) > 6 and op[6] and cbkind != 3
+            r = s['funcs']['run_cb_thread' if inthread else 'run_cb'][path](cbptr, pre, 5)
             return [r, seen]
         raise HarnessError('bad op %r' % (op,))
 
@@ -287,7 +302,8 @@ def prop(case, ctx):
                 model[t] = op[2]
                 changes = True
             elif k == 'cb':
-                _, _, path, cbkind, pre, assign = op
+                _, _, path, cbkind, pre, assign = op[:6]
+                inthread = len(op) > 6 and op[6] and cbkind != 3
                 r, seen = res
                 if cbkind == 3:
                     if seen != []:
@@ -300,7 +316,9 @@ def prop(case, ctx):
                 if r != expect:
                     ctx.fail('thread %d: C saw errno %r after the callback, expected %r' % (t, r, expect),
                              step=idx, op=op)
-                model[t] = expect
+                model[t] = pre if inthread else expect
+                if inthread:
+                    ctx.event('callback-from-a-C-created-thread')
                 changes = True
             ctx.note((idx, op), False, [k] + ([PATHS[op[2]]] if k in ('c_set', 'c_get', 'c_add', 'cb') else []))
             if changes:
